@@ -1851,7 +1851,13 @@ impl<'a, 'b, W: Write> SerializeSeq for SeqSer<'a, 'b, W> {
                 }
                 // If at line start, indent appropriately.
                 if self.ser.at_line_start {
-                    self.ser.write_indent(self.depth)?;
+                    // The line of the key has already ended (a pending anchor, or a sequence of
+                    // unknown length after a block sibling). With `compact_list_indent` the
+                    // items of a mapping value sit in the key's column; `[]` must be deeper.
+                    let compact_map_value = self.ser.compact_list_indent
+                        && self.ser.current_map_depth == Some(self.depth);
+                    self.ser
+                        .write_indent(self.depth + usize::from(compact_map_value))?;
                 }
                 self.ser.out.write_str("[]")?;
                 self.ser.newline()?;
